@@ -1,5 +1,5 @@
 use crate::{
-    error::{ComputeError, ExecError, MemoryError, OpError, OpResult},
+    error::{ComputeError, ExecError, OpError, OpResult, OutOfGasError},
     Access, Gas, GasLimit, LazyCache, Memory, Op, OpAccess, OpGasCost, Repeat, Stack, StateReads,
     Vm,
 };
@@ -140,13 +140,22 @@ where
 // Updates parent VM program counter to the largest pc returned from the compute programs.
 //
 // Returns maximum program counter and total gas spent in compute programs.
-fn compute_effects(
+fn compute_effects<E>(
     memory: &mut Memory,
     mut pc: usize,
     mut halt: bool,
     compute_results: Vec<(Gas, usize, Memory, bool)>,
-) -> Result<(usize, Gas, bool), MemoryError> {
-    let mut total_gas = 0;
+) -> OpResult<(usize, Gas, bool), E> {
+    // The gas spent by all compute programs together has to fit in `Gas`.
+    let total_gas = compute_results
+        .iter()
+        .try_fold(0, |total: Gas, (gas, _, _, _)| {
+            total.checked_add(*gas).ok_or(OutOfGasError {
+                spent: total,
+                op_gas: *gas,
+                limit: Gas::MAX,
+            })
+        })?;
 
     let mut memory_to_alloc = 0;
     compute_results
@@ -157,9 +166,8 @@ fn compute_effects(
     // allocate enough space in the parent memory at once
     memory.alloc(memory_to_alloc)?;
     // concat compute memories to parent memory one by one
-    compute_results.iter().for_each(|(gas, c_pc, mem, h)| {
+    compute_results.iter().for_each(|(_, c_pc, mem, h)| {
         pc = std::cmp::max(pc, *c_pc);
-        total_gas += gas;
         memory.store_range(memory_pointer, mem).expect("for now");
         memory_pointer += mem.len().unwrap();
         halt |= h;
